@@ -109,11 +109,32 @@ Definition wire_contract (tr : option (bool * targs * res (hdr * bytes))) (wire 
   | _, _ => true
   end.
 
+(* contract of the transport used by c09_typ / c09_jwe_header_kept, checked on the record: the
+   dict the transport was given is, after the call, what it was plus members with new names
+   (kid of a picked key, epk, p2s, iv/tag ...): no given member is dropped or changed, whatever
+   the payload *)
+Fixpoint hdr_prefix (w w' : hdr) : option hdr :=
+  match w, w' with
+  | [], r => Some r
+  | (k, v) :: a, (k2, v2) :: b => if str_eqb k k2 && pv_eqb v v2 then hdr_prefix a b else None
+  | _ :: _, [] => None
+  end.
+Definition header_kept_contract (tr : option (bool * hdr * bytes * targs * res bytes * hdr)) : bool :=
+  match tr with
+  | Some (_, w, _, _, Ok _, w') =>
+      match hdr_prefix w w' with
+      | Some extra => forallb (fun kv => negb (dmem w (fst kv))) extra
+      | None => false
+      end
+  | _ => true
+  end.
+
 Definition c09_check (c : c09case) : bool :=
   match c with
   | CEnc h cl a e d tr ex ha ca =>
       let o := run_enc h cl a e d tr in
       res_eqb beqb (eo_result o) ex && hdr_eqb (eo_header o) ha && claims_eqb (eo_claims o) ca
+      && header_kept_contract tr
   | CConv cl e d ex ca =>
       let '(c', r) := convert_claims_g (pt_dumps d e) cl in
       res_eqb beqb r ex && claims_eqb c' ca
